@@ -88,3 +88,8 @@ def run(ctx):
     ctx.coverage["distinct_nontrivial"] = sum(s["distinct_configurations"] for s in ctx.coverage["suites"].values())
     ctx.coverage["rule"] = "every configuration reported after every step() of both engines on random charts biased to multi-target transitions, deep initial attributes and history; Spec.Legal.legal evaluated by the Lean driver; distinct = distinct (chart, configuration) pairs"
     ctx.assumptions += ["the generated C machine is covered by C04", "validation (C19) accepts the generated documents"]
+
+
+def replay(ctx, path):
+    import uvlib
+    return uvlib.generic_replay(ctx, path, [(None, "trace", "trace", None)])
